@@ -26,34 +26,34 @@ import (
 )
 
 type Gen struct {
-	prog        *ssa.Program
-	fset        *token.FileSet
-	pkgs        []*packages.Package
-	byPath      map[string]*packages.Package
-	allTypes    map[string]*types.Package
-	filesByName map[string]*ast.File
-	cs          *ContractSet
-	modPath     string
-	sizes       types.Sizes
-	funcIDs     map[string]int
-	typeByKey   map[string]types.Type
-	bindErrors  []string
-	modCache    map[*ssa.Function]*ModSet
-	modBusy     map[*ssa.Function]bool
-	traced      map[string]bool
-	specDepth   int
-	noOverflowObl bool
-	loopCache   map[*ssa.Function][]loopStmt
+	prog           *ssa.Program
+	fset           *token.FileSet
+	pkgs           []*packages.Package
+	byPath         map[string]*packages.Package
+	allTypes       map[string]*types.Package
+	filesByName    map[string]*ast.File
+	cs             *ContractSet
+	modPath        string
+	sizes          types.Sizes
+	funcIDs        map[string]int
+	typeByKey      map[string]types.Type
+	bindErrors     []string
+	modCache       map[*ssa.Function]*ModSet
+	modBusy        map[*ssa.Function]bool
+	traced         map[string]bool
+	specDepth      int
+	noOverflowObl  bool
+	loopCache      map[*ssa.Function][]loopStmt
 	tracedArgTypes map[string][]types.Type
 	tracedResTypes map[string][]types.Type
 	tracedPkg      map[string]string
 	traceSpecMemo  map[*SpecFun]int
 	tracedFnType   map[string]types.Type
-	modDirty    bool
-	funcSet     map[*ssa.Function]bool
-	ctCache     map[*ssa.Function]ctEntry
-	mapNonNil   map[string][]string
-	boxNonNil   map[string][]string
+	modDirty       bool
+	funcSet        map[*ssa.Function]bool
+	ctCache        map[*ssa.Function]ctEntry
+	mapNonNil      map[string][]string
+	boxNonNil      map[string][]string
 }
 
 type loopStmt struct {
@@ -166,6 +166,9 @@ func (g *Gen) resolveType(text string, pkg *types.Package) types.Type {
 			return g.canon(types.NewArray(t, n))
 		}
 		return nil
+	}
+	if text == "struct{}" {
+		return types.NewStruct(nil, nil)
 	}
 	if text == "any" || text == "interface{}" {
 		return types.Universe.Lookup("any").Type()
@@ -416,6 +419,11 @@ func main() {
 				props = append(props, sw.Props...)
 			}
 		}
+		for _, sw := range g.cs.FrameSweeps {
+			if sw.Pkg == fn.Pkg.Pkg.Path() && sweepMatch(sw, methodKey(fn)) {
+				props = append(props, sw.Props...)
+			}
+		}
 		props = uniq(props)
 		if len(props) == 0 {
 			continue
@@ -451,6 +459,42 @@ func main() {
 			}
 		}
 		defProps := j.props
+		{
+			// properties that only come from a framesweep tag frame obligations, nothing else
+			var fsOnly []string
+			for _, sw := range g.cs.FrameSweeps {
+				if sw.Pkg == j.fn.Pkg.Pkg.Path() && sweepMatch(sw, methodKey(j.fn)) {
+					fsOnly = append(fsOnly, sw.Props...)
+				}
+			}
+			if len(fsOnly) > 0 {
+				own := map[string]bool{}
+				if j.ct != nil {
+					for _, p := range j.ct.Props {
+						own[p] = true
+					}
+					for _, cl := range append(append([]*Clause{}, j.ct.Requires...), j.ct.Ensures...) {
+						for _, p := range cl.Props {
+							own[p] = true
+						}
+					}
+				}
+				for _, sw := range g.cs.Sweeps {
+					if sw.Pkg == j.fn.Pkg.Pkg.Path() && sweepMatch(sw, methodKey(j.fn)) {
+						for _, p := range sw.Props {
+							own[p] = true
+						}
+					}
+				}
+				var keep []string
+				for _, p := range defProps {
+					if own[p] || !hasProp(fsOnly, p) {
+						keep = append(keep, p)
+					}
+				}
+				defProps = keep
+			}
+		}
 		if j.ct != nil && len(j.ct.Props) > 0 {
 			defProps = j.ct.Props
 		} else {
